@@ -8,12 +8,13 @@ outd = f"/tmp/seed-out{rnd}/{pid}"
 earlier = ""
 if rnd:
     import os
-    m = f"/verif/seeded/{pid}/meta.json"
-    if os.path.exists(m):
-        meta = json.load(open(m))
-        earlier = f"""
-
-An earlier reviewer already produced one such change for this property: it touched {', '.join(meta['files_changed'])} and needed: {meta['needs_to_manifest']}. Yours must use a DIFFERENT mechanism (another function, another part of the statement, another kind of input)."""
+    done = []
+    for m in [f"/verif/seeded/{pid}/meta.json"] + [f"/verif/seeded/{pid}/r{k}/meta.json" for k in range(2, 9)]:
+        if os.path.exists(m):
+            meta = json.load(open(m))
+            done.append(f"one touched {', '.join(meta['files_changed'])} and needed: {meta['needs_to_manifest']}")
+    if done:
+        earlier = "\n\nEarlier reviewers already produced such changes for this property: " + "; ".join(done) + ". Yours must use a DIFFERENT mechanism (another function, another part of the statement, another kind of input), and it must not simply re-introduce a bug that the git history of the repository shows as fixed (look at `git log --oneline | head -80`)."
 p = [json.loads(l) for l in open('/verif/properties.jsonl') if json.loads(l)['id'] == pid][0]
 print(f"""You are helping to evaluate a verification effort for the Rust project kaj/rsass (a pure-Rust Sass/SCSS compiler: nom parser, scoped evaluator, built-in function modules, selector algebra, CSS output).
 
